@@ -471,6 +471,20 @@ StructWidePrograms ==
         : vis \in {"public", "protected"},
           q \in {r \in (DOMAIN StructElems) \X (DOMAIN StructElems) \X (DOMAIN StructElems) : r[1] # r[2] /\ r[1] # r[3] /\ r[2] # r[3]}}
 
+(* string comments with escaped quotes.  In comment texts of this module the character ~ stands for an ESCAPED double
+   quote (written backslash-quote in the class text): quotes at the start / end of a comment, comments that are nothing
+   but quotes, empty comments, and all of these inside concatenations, on components, on the class and on a nested class *)
+CommentChoices == << <<"~bar~">>, <<"unit is called ~bar~">>, <<"~">>, <<"~~">>, <<"">>, <<"ends ~">>, <<"~ starts">>, <<"mid~dle">>,
+                     <<"a~", "b">>, <<"a", "~b~", "c~">>, <<"", "x">>, <<"~", "~">>, <<"x", "">>, <<"plain">> >>
+ClassCommentChoices == <<"", "doc", "~quoted~", "ends ~", "~">>
+CommentPrograms ==
+    {Class("M", ClassCommentChoices[cc],
+           << ElemSec("first", << Clause(<<>>, <<"Real">>, <<>>, <<Decl("a", <<>>, <<>>, "1", CommentChoices[i]), Decl("b", <<>>, <<>>, "", CommentChoices[j])>>),
+                                  NestedEl(Class("In", ClassCommentChoices[nc],
+                                                 << ElemSec("first", << Clause(<<>>, <<"Real">>, <<>>, <<Decl("c", <<>>, <<>>, "", CommentChoices[i])>>) >>) >>)) >>),
+              ElemSec("public", << Clause(<<"parameter">>, <<"Real">>, <<>>, <<Decl("d", <<>>, <<>>, "1", CommentChoices[j])>>) >>) >>)
+        : i \in DOMAIN CommentChoices, j \in {1, 3, 5, 9, 14}, cc \in DOMAIN ClassCommentChoices, nc \in {1, 3, 4}}
+
 (* duplicates and near-duplicates *)
 D1(n) == Decl(n, <<>>, <<>>, "", <<>>)
 RC(ds) == Clause(<<>>, <<"Real">>, <<>>, ds)
@@ -492,6 +506,7 @@ Programs == (IF "clause" \in Families THEN {[family |-> "clause", c |-> c] : c \
        \cup (IF "sections" \in Families THEN {[family |-> "sections", c |-> c] : c \in SectionPrograms} ELSE {})
        \cup (IF "struct" \in Families THEN {[family |-> "struct", c |-> c] : c \in StructPrograms} ELSE {})
        \cup (IF "structwide" \in Families THEN {[family |-> "structwide", c |-> c] : c \in StructWidePrograms} ELSE {})
+       \cup (IF "comments" \in Families THEN {[family |-> "comments", c |-> c] : c \in CommentPrograms} ELSE {})
        \cup (IF "dup" \in Families THEN {[family |-> "dup", c |-> c] : c \in DupPrograms} ELSE {})
 
 (* shape tags: the features of a class text that known deviations depend on *)
